@@ -30,6 +30,7 @@ type UnitInfo struct {
 	CtxType  types.Type // contextual (named) type of a closure literal, if any
 	FreeVars []*types.Var
 	Loops    []ast.Stmt // loops of this unit in source order (not descending into literals)
+	Natural  string     // closure: natural name (see naturalName)
 }
 
 type Program struct {
@@ -71,12 +72,17 @@ func loadProgram(repo string) (*Program, error) {
 			return nil, fmt.Errorf("package %s does not type-check: %v", pk.PkgPath, pk.Errors[0])
 		}
 		p.Pkgs[pk.Name] = pk
-		for i, f := range pk.Syntax {
+		// contracts first: closure headers may bind their ordinal to a literal by its natural name
+		for i := range pk.Syntax {
 			fn := pk.CompiledGoFiles[i]
 			if strings.HasSuffix(fn, "_verif.go") {
 				if err := parseContractFile(fn, p.Contracts); err != nil {
 					return nil, err
 				}
+			}
+		}
+		for i, f := range pk.Syntax {
+			if strings.HasSuffix(pk.CompiledGoFiles[i], "_verif.go") {
 				continue
 			}
 			p.discover(pk, f)
@@ -153,30 +159,134 @@ func (p *Program) discover(pk *packages.Package, f *ast.File) {
 // discoverLits assigns ordinal paths to function literals nested in body and
 // collects the loops of the unit.
 func (p *Program) discoverLits(parent *UnitInfo, body *ast.BlockStmt, pk *packages.Package) {
-	ord := 0
-	var walk func(n ast.Node) bool
-	walk = func(n ast.Node) bool {
+	// direct child literals in source order, with their natural names
+	type child struct {
+		lit  *ast.FuncLit
+		name string
+	}
+	var kids []child
+	seenName := map[string]int{}
+	var stack []ast.Node
+	ast.Inspect(body, func(n ast.Node) bool {
+		if n == nil {
+			stack = stack[:len(stack)-1]
+			return true
+		}
 		switch x := n.(type) {
 		case *ast.FuncLit:
-			key := fmt.Sprintf("%s#%d", parent.Key, ord)
-			if parent.Lit != nil {
-				key = fmt.Sprintf("%s.%d", parent.Key, ord)
+			name := naturalName(x, stack)
+			if name != "" {
+				seenName[name]++
+				if seenName[name] > 1 {
+					name = fmt.Sprintf("%s~%d", name, seenName[name])
+				}
 			}
-			ord++
-			sig, _ := pk.TypesInfo.TypeOf(x).(*types.Signature)
-			u := &UnitInfo{Name: pk.Name + "." + key, Key: key, Pkg: pk, Decl: parent.Decl, Lit: x, Body: x.Body, Sig: sig, Parent: parent}
-			parent.Children = append(parent.Children, u)
-			p.Units[u.Name] = u
-			p.UnitOfLit[x] = u
-			p.discoverLits(u, x.Body, pk)
-			u.FreeVars = freeVars(pk, x)
-			return false
+			kids = append(kids, child{x, name})
+			return false // nested literals belong to the child (no push: Inspect sends no nil for a pruned node)
 		case *ast.ForStmt, *ast.RangeStmt:
 			parent.Loops = append(parent.Loops, x.(ast.Stmt))
 		}
+		stack = append(stack, n)
 		return true
+	})
+	sep := "#"
+	if parent.Lit != nil {
+		sep = "."
 	}
-	ast.Inspect(body, walk)
+	// ordinals bound by name in the contract file
+	bound := map[string]int{} // natural name -> ordinal
+	taken := map[int]bool{}
+	prefix := "closure:" + parent.Key + sep
+	for k, sp := range p.Contracts.Units {
+		if sp.Hint == "" || !strings.HasPrefix(k, prefix) {
+			continue
+		}
+		rest := strings.TrimPrefix(k, prefix)
+		var ord int
+		if _, err := fmt.Sscanf(rest, "%d", &ord); err != nil || fmt.Sprint(ord) != rest {
+			continue
+		}
+		bound[sp.Hint] = ord
+	}
+	ordOf := make([]int, len(kids))
+	for i := range ordOf {
+		ordOf[i] = -1
+	}
+	for i, kd := range kids {
+		if o, ok := bound[kd.name]; ok && kd.name != "" && !taken[o] {
+			ordOf[i] = o
+			taken[o] = true
+		}
+	}
+	// ordinals reserved by a hint that matched no literal stay unassigned (the contract reports "no unit matches")
+	for _, o := range bound {
+		taken[o] = true
+	}
+	next := 0
+	for i, kd := range kids {
+		if ordOf[i] < 0 {
+			for taken[next] {
+				next++
+			}
+			ordOf[i] = next
+			taken[next] = true
+		}
+		key := fmt.Sprintf("%s%s%d", parent.Key, sep, ordOf[i])
+		x := kd.lit
+		sig, _ := pk.TypesInfo.TypeOf(x).(*types.Signature)
+		u := &UnitInfo{Name: pk.Name + "." + key, Key: key, Pkg: pk, Decl: parent.Decl, Lit: x, Body: x.Body, Sig: sig, Parent: parent, Natural: kd.name}
+		parent.Children = append(parent.Children, u)
+		p.Units[u.Name] = u
+		p.UnitOfLit[x] = u
+		p.discoverLits(u, x.Body, pk)
+		u.FreeVars = freeVars(pk, x)
+	}
+}
+
+// naturalName: the variable a literal is assigned to, "@<callee>.<argument index>" for a literal passed to a call,
+// "@return" for a returned literal, "" otherwise. stack holds the ancestors (innermost last).
+func naturalName(lit *ast.FuncLit, stack []ast.Node) string {
+	if len(stack) == 0 {
+		return ""
+	}
+	switch par := stack[len(stack)-1].(type) {
+	case *ast.AssignStmt:
+		for i, r := range par.Rhs {
+			if r == lit && i < len(par.Lhs) {
+				if id, ok := par.Lhs[i].(*ast.Ident); ok {
+					return id.Name
+				}
+			}
+		}
+	case *ast.ValueSpec:
+		for i, r := range par.Values {
+			if r == lit && i < len(par.Names) {
+				return par.Names[i].Name
+			}
+		}
+	case *ast.ReturnStmt:
+		return "@return"
+	case *ast.CallExpr:
+		for i, a := range par.Args {
+			if a == lit {
+				callee := ""
+				switch f := ast.Unparen(par.Fun).(type) {
+				case *ast.Ident:
+					callee = f.Name
+				case *ast.SelectorExpr:
+					callee = f.Sel.Name
+				case *ast.IndexExpr:
+					if id, ok := f.X.(*ast.Ident); ok {
+						callee = id.Name
+					} else if se, ok := f.X.(*ast.SelectorExpr); ok {
+						callee = se.Sel.Name
+					}
+				}
+				return fmt.Sprintf("@%s.%d", callee, i)
+			}
+		}
+	}
+	return ""
 }
 
 func freeVars(pk *packages.Package, lit *ast.FuncLit) []*types.Var {
